@@ -1,6 +1,7 @@
 """Contracts for dimarray/core/align.py: stack, concatenate  [C12]"""
 from dverif.contract_base import Contract
-from .common import assume_order
+from .common import assume_order, absent
+from dverif.stubs import stub_of
 
 NEW = "k"
 
@@ -349,3 +350,136 @@ class JoinAligned(Contract):
         yield "coordinates-an-input-lacks-are-nan", nan_elsewhere
         yield "inputs-untouched", all(np.array_equal(np.asarray(env["arrays"][j].values), datas[j], equal_nan=True) and
                                      all([float(v) for v in env["arrays"][j].axes["x%d" % d].values] == labs[j][d] for d in range(rank)) for j in range(k))
+
+
+
+class JoinAlignedProof(Contract):
+    """stack / concatenate with align=True (sort=False), proved against the callee contracts of _get_aligned_axes and
+    reindex_axis (the real align body is executed): with `common` the axes _get_aligned_axes returned for the inputs, every
+    secondary dimension of the result carries exactly the common axis; in stack's slice j / concatenate's block j the cell at
+    every label coordinate the j-th input HAS is that input's cell, and the cell at every coordinate it lacks is NaN; the
+    inputs are untouched.  (That the common axis is the union of the inputs' labels, each once, is AxisUnion's contract, C06.)
+    Inputs list their dimensions in the same order.  [C12]"""
+    target = "dimarray.core.align:stack"
+    props = ("C12",)
+    inlined = ("align (own contract: Align, C06)", "_get_axes", "_concatenate_axes", "Axis.__eq__")
+    max_paths = 900
+
+    def _uses(self):
+        from .align import ReindexAxis, GetAlignedAxes
+        return (stub_of(ReindexAxis), stub_of(GetAlignedAxes))
+
+    @property
+    def uses(self):
+        if not hasattr(self, "_u"):
+            self._u = self._uses()
+        return self._u
+
+    def cases(self, tier):
+        yield {"name": "stack-r1", "func": "stack", "rank": 1, "k": 2, "orders": _orders(1, 2, False), "swapped": False}
+        yield {"name": "stack-r2", "func": "stack", "rank": 2, "k": 2, "orders": _orders(2, 2, False), "swapped": False}
+        yield {"name": "concatenate-r2-axis0", "func": "concatenate", "rank": 2, "k": 2, "orders": _orders(2, 2, False), "swapped": False}
+
+    def bound_lengths(self, case):
+        return ["a%d.lab%d.n" % (j, d) for j in range(case["k"]) for d in range(case["rank"])]
+
+    def setup(self, S, case):
+        env = _make_arrays(S, case)
+        for j in range(case["k"]):
+            for d in range(case["rank"]):
+                S.tag(env["arrays"][j].axes[d].values, "order", "unique")
+        return env
+
+    def call(self, fn, env):
+        import importlib
+        mod = importlib.import_module("dimarray.core.align")
+        if env["case"]["func"] == "stack":
+            return mod.stack(list(env["arrays"]), axis=NEW, align=True)
+        return mod.concatenate(list(env["arrays"]), axis="x0", align=True)
+
+    def raises(self, S, case, env):
+        return {IndexError: False}
+
+    def _common(self, S, env):
+        out = {}
+        calls = S.calls("GetAlignedAxes")
+        for c in calls:
+            for ax in c[3]:
+                out[ax.name] = ax.values
+        if not calls:
+            # natively there is no call log: ask the real function the same questions stack / concatenate ask
+            import importlib
+            mod = importlib.import_module("dimarray.core.align")
+            case = env["case"]
+            if case["func"] == "stack":
+                for ax in mod._get_aligned_axes(list(env["arrays"]), strict=True):
+                    out[ax.name] = ax.values
+            else:
+                arrays = list(env["arrays"])
+                for d in range(1, case["rank"]):
+                    for ax in mod._get_aligned_axes(arrays, axis="x%d" % d, strict=True):
+                        out[ax.name] = ax.values
+        return out
+
+    def known_regions(self, S, case, env):
+        try:
+            common = self._common(S, env)
+        except Exception:
+            return {}
+        conds = [S.land(S.n(env["labels"][j][d]) == 0, S.n(common["x%d" % d]) > 0) for j in range(case["k"]) for d in range(case["rank"]) if "x%d" % d in common]
+        return {"empty-operand-axis": S.lor(*conds)} if conds else {}
+
+    def post(self, S, case, env, result):
+        rank, k, func = case["rank"], case["k"], case["func"]
+        common = self._common(S, env)
+        sec = list(range(rank)) if func == "stack" else list(range(1, rank))
+        yield "one-common-axis-per-secondary-dimension", sorted(common) == ["x%d" % d for d in sec]
+        yield "is-dimarray", S.is_dimarray(result)
+        want = ([NEW] if func == "stack" else []) + ["x%d" % d for d in range(rank)]
+        ok = list(result.dims) == want
+        yield "dimensions", ok
+        if not ok or sorted(common) != ["x%d" % d for d in sec]:
+            return
+        off = 1 if func == "stack" else 0
+        R = {}
+        for d in range(rank):
+            Lr = result.axes[off + d].values
+            R[d] = Lr
+            if d in sec:
+                C = common["x%d" % d]
+                yield "x%d:carries-the-common-axis" % d, S.land(S.n(Lr) == S.n(C), S.forall(0, S.n(C), lambda i, Lr=Lr, C=C: S.implies(i < S.n(Lr), lambda: S.at(Lr, i) == S.at(C, i))))
+        rv = result.values
+        sizes0 = [S.n(env["labels"][j][0]) for j in range(k)]
+        offs = [0, sizes0[0]]
+        if func == "concatenate":
+            Lr = R[0]
+            yield "x0:labels-concatenated-in-order", S.land(S.n(Lr) == sizes0[0] + sizes0[1], *[
+                S.forall(0, sizes0[j], lambda p, j=j: S.implies(offs[j] + p < S.n(Lr), lambda: S.at(Lr, offs[j] + p) == S.at(env["labels"][j][0], p))) for j in range(k)])
+        for j in range(k):
+            labs, old = env["labels"][j], env["old"][j]
+            shape = [S.n(R[d]) if d in sec else sizes0[j] for d in range(rank)]
+
+            def ridx(c, j=j):
+                c = list(c)
+                if func == "stack":
+                    return [j] + c
+                c[0] = offs[j] + c[0]
+                return c
+
+            def present(*c, j=j, labs=labs, old=old):
+                # for every position tuple p of input j whose labels are the result's labels at c: the cell is input j's
+                def inner(*p):
+                    match = S.land(*[S.at(labs[d], p[i]) == S.at(R[d], c[d]) for i, d in enumerate(sec)])
+                    src = [p[sec.index(d)] if d in sec else c[d] for d in range(rank)]
+                    return S.implies(match, lambda: S.same(S.at(rv, *ridx(c)), S.at(old, *src)))
+                return S.forall_nd([S.n(labs[d]) for d in sec], inner)
+            yield "input-%d:present-labels-keep-their-data" % j, S.forall_nd(shape, present)
+
+            def missing(*c, j=j, labs=labs):
+                lacks = S.lor(*[absent(S, labs[d], S.at(R[d], c[d])) for d in sec])
+                return S.implies(lacks, lambda: S.isnan(S.at(rv, *ridx(c))))
+            yield "input-%d:coordinates-it-lacks-are-nan" % j, S.forall_nd(shape, missing)
+        yield "inputs-untouched", _inputs_untouched(S, case, env)
+
+    def canaries(self, S, case, env, result):
+        yield "result-is-empty", S.shape(result.values)[-1] == 0
